@@ -14,8 +14,9 @@ REGIONS = [
     dict(name="FutLock(delegate link)", modules=[I + "map", I + "flat_map", I + "throttle", I + "futures.nocancel", I + "futures.proxy"],
          fields=["_delegate"], locks=["_me_lock"], kinds=("store", "del"),
          init=("__init__",),
-         # executors' own `_delegate` (the wrapped executor) is written in their constructors only
-         props=["C02", "C06", "C12"]),
+         # executors' own `_delegate` (the wrapped executor) is written in their constructors only; cancel() / running() read the link twice
+         # under this lock: an unlocked writer lets AttributeError escape cancel() (C02, C18) and kills a timeout thread cancelling at a deadline
+         props=["C02", "C06", "C12", "C18", "C09"]),
     dict(name="FutLock(retry future)", modules=[I + "retry"], fields=["delegate_future"], locks=["_me_lock"], kinds=("store", "del"),
          lockfree={"RetryJob.__init__": True},      # field of the immutable job record, same name
          props=["C02", "C06", "C12"]),
@@ -75,7 +76,7 @@ def _stdlib_transitions_under_lock(repo):
                 ok = "_me_lock" in held
                 # RetryFuture passes the bound super method into __terminate_via, which calls it under the lock
                 out.append(S.ob("state transition %s in %s happens under _me_lock" % (nm, S.short(qn)), "FR", ok,
-                                ["C02", "C13", "C06", "C18", "C01", "C03"], {"site": "%s:%d" % (f.module.path, line), "held": list(held)}))
+                                ["C02", "C13", "C06", "C18", "C01", "C03", "C14", "C15", "C16"], {"site": "%s:%d" % (f.module.path, line), "held": list(held)}))
         # bound super methods passed as values (RetryFuture.__terminate_via(method, ...))
         for n in ast.walk(f.node):
             if isinstance(n, ast.Call) and isinstance(n.func, ast.Attribute) and n.func.attr.endswith("__terminate_via"):
@@ -157,6 +158,26 @@ def _writer_sets(repo):
     return out
 
 
+def _events_list(repo):
+    """on_exiting walks handler.events WITHOUT the lock (it runs once, at interpreter exit).  That is safe only because the list object is
+    append-only: get_event appends, clean_events REPLACES the list (rebinding the field) and never prunes it in place - a list shrinking under
+    the iterator would make the exit hook skip a live event, and that worker would never be woken."""
+    import ast
+    mi = repo.modules[I + "event"]
+    bad = []
+    for n in ast.walk(mi.tree):
+        tgt = None
+        if isinstance(n, (ast.Assign, ast.AugAssign, ast.Delete)):
+            for t in (n.targets if not isinstance(n, ast.AugAssign) else [n.target]):
+                if isinstance(t, ast.Subscript) and isinstance(t.value, ast.Attribute) and t.value.attr == "events":
+                    bad.append("line %d: in-place %s" % (n.lineno, type(n).__name__))
+        if isinstance(n, ast.Call) and isinstance(n.func, ast.Attribute) and isinstance(n.func.value, ast.Attribute) and n.func.value.attr == "events" \
+                and n.func.attr in ("remove", "pop", "clear", "insert", "sort", "reverse", "extend", "__delitem__", "__setitem__"):
+            bad.append("line %d: .%s()" % (n.lineno, n.func.attr))
+    return [S.ob("handler.events is append-only in place: clean_events rebinds the field, it never prunes the list that the exit hook may be walking", "FR",
+                 not bad, ["C12", "C11", "C03"], {"in-place mutations": bad})]
+
+
 def _future_handout(repo):
     """C02 F6 hand-out obligation: a plain concurrent.futures.Future is created only where it is resolved
     before it is returned; every possibly-pending future handed out is an instance of a library class whose
@@ -217,9 +238,12 @@ REPLAYS = [("C04", "static:lock-order # LL", "replay/c04_cancel_on_shutdown_abba
            ("C03", "every possibly-pending future handed out", "replay/c02_combinator_cancel_waiters.py")]
 
 STATIC = [
+    dict(name="event-list-append-only", props=["C12", "C11", "C03"], run=_events_list),
     dict(name="future-handout", props=["C02", "C03"], run=_future_handout),
     dict(name="regions", props=sorted({p for r in REGIONS for p in r["props"]}), run=_regions),
-    dict(name="future-state-transitions", props=["C02", "C13", "C05", "C06", "C18", "C01", "C03"], run=_stdlib_transitions_under_lock),
+    # a terminal transition outside the future's lock can slip between the done() test and the append of add_done_callback: the callback is
+    # lost, and with it every future derived from this one (map / flat_map chains, hence f_apply, f_zip, f_and / f_or, f_traverse)
+    dict(name="future-state-transitions", props=["C02", "C13", "C05", "C06", "C18", "C01", "C03", "C14", "C15", "C16"], run=_stdlib_transitions_under_lock),
     dict(name="foreign-code-under-future-lock", props=["C04", "C02"], run=_foreign_under_futlock),
     dict(name="wake-orders", props=["C03", "C05", "C07", "C08", "C09", "C11"], run=_wake_orders),
     dict(name="writer-sets", props=["C13", "C01", "C02", "C06", "C07", "C08", "C14", "C15"], run=_writer_sets),
